@@ -137,9 +137,11 @@ type Cluster struct {
 	nodeDirSeq map[string]int
 }
 
+// serverOf: no Name pointer on purpose.  model.Server is used as a map key inside the
+// coordinator; a pointer field would make map iteration (and with it the leader choice among
+// equal candidates) depend on heap addresses, i.e. on what ran earlier in the process.
 func serverOf(name string) model.Server {
-	n := name
-	return model.Server{Name: &n, Public: nodePublic(name), Internal: nodeInternal(name)}
+	return model.Server{Public: nodePublic(name), Internal: nodeInternal(name)}
 }
 
 func NewCluster(w *World, nodes []string, namespaces []model.NamespaceConfig) *Cluster {
